@@ -68,10 +68,11 @@ pub broadcast axiom fn axiom_string_from_str(v: &str)
 pub enum UnicodeDataDecompositionTag { Font, NoBreak, Initial, Medial, Final, Isolated, Circle, Super, Sub, Vertical, Wide, Narrow, Small, Square, Fraction, Compat }
 pub assume_specification[ <UnicodeDataDecompositionTag as PartialEq>::eq ](a: &UnicodeDataDecompositionTag, b: &UnicodeDataDecompositionTag) -> (r: bool)
     ensures r == (*a == *b);
-#[derive(Clone, Debug, PartialEq, Eq)]
+#[derive(Debug, PartialEq, Eq)]
 pub struct UnicodeDataDecomposition {
     pub tag: Option<UnicodeDataDecompositionTag>,
     pub len: usize,
     pub mapping: [Codepoint; 18],
 }
+impl Clone for UnicodeDataDecomposition { #[verifier::external_body] fn clone(&self) -> (r: Self) ensures r == *self { unimplemented!() } }
 impl Default for UnicodeDataDecomposition { #[verifier::external_body] fn default() -> Self { unimplemented!() } }
